@@ -17,8 +17,8 @@ KINDS = ['ExplicitEuler', 'RungeKutta2', 'RungeKutta3', 'RungeKuttaFeldberg', 'R
 INF = float('inf')
 
 EXTRACT_V = '''From Coq Require Import Extraction ExtrOcamlBasic.
-Require Import C19_Model C19_CPodes.
-Extraction "C19m.ml" stepTo reinit init_state oracle_okb select_t1 tState stepToC reinitC init_stateC cp_okb tStateC.
+Require Import C19_Model C19_CPodes C21_Model.
+Extraction "C19m.ml" stepTo reinit init_state oracle_okb select_t1 tState stepToC reinitC init_stateC cp_okb tStateC adjust attempts.
 '''
 
 def fx(s):
@@ -154,7 +154,7 @@ def proj_flag(call, t1):
     if not rec_of(call, 'C21.dae'): return 1
     return 1 if any(v[0] == t1 for v in rec_of(call, 'C21.daeproj')) else 0
 
-def replay_abstract(sc, drv):
+def replay_abstract(sc, drv, percall=None):
     """returns (n_calls_compared, n_uses, mismatch or None, paths set)"""
     lines = [cfg_line(sc)]; expect = []
     first = True
@@ -225,6 +225,7 @@ def replay_abstract(sc, drv):
                 return ncalls, nuses, where + 'recorded takeOneStep outcome violates the oracle contract: t0=%s tMax=%s tReport=%s t1=%s ev=%d window=(%s,%s)' % (
                     hx(v[0]), hx(v[1]), hx(v[2]), hx(v[7]), int(v[4]), hx(v[5]), hx(v[6])), paths
             nuses += 1
+        if percall is not None: percall.append((e, tk))
         paths.add('%s/comm%d/interp%d/steps%s' % (mst, mcomm, mip, '0' if nu == 0 else ('1' if nu == 1 else 'n')))
     return ncalls, nuses, None, paths
 
@@ -283,6 +284,22 @@ def witness_window(ctx, exe):
     ctx.extra['witness_window_followed_by_late_return'] = late
     return hits
 
+def witness_cpodes(ctx, exe):
+    """DESIGN 7.18 (b): the CPodes wrapper leaves the advanced state beyond a pending scheduled event"""
+    scripts, rc = run_harness(exe, ctx.seed, 3, 'wcp')
+    hits = 0
+    for sc in scripts:
+        fails = [f for f in predicates(sc) if f[0] == 'advanced_never_passes_sched_or_final']
+        others = [f for f in predicates(sc) if f[0] != 'advanced_never_passes_sched_or_final']
+        if fails:
+            hits += 1
+            ctx.report('cpodes-advanced-passes-sched', 'CPodes: ' + fails[0][1],
+                       {'script': script_summary(sc, fails[0][2]), 'theorem': 'C19_cp_advanced_never_passes_sched_refuted'})
+        for f in others[:1]:
+            ctx.report('impl:%s:CPodes' % f[0], 'CPodes violates C19 clause %s: %s' % (f[0], f[1]), {'script': script_summary(sc, f[2]), 'clause': f[0]})
+    ctx.extra['witness_cpodes_7_18b_reproduced'] = hits
+    return hits
+
 # ------------------------------------------------------------------------------------------------ main
 def correspondence(ctx, tools, nscripts, seeds):
     drv, exe = tools
@@ -305,7 +322,7 @@ def correspondence(ctx, tools, nscripts, seeds):
             # the property's predicates on the implementation's own returns
             fails = predicates(sc); pred_evals += ncall
             for f in fails: pred_fail.append((sc, f))
-            has = any(e['type'] == 'call' and e['recs'] for e in sc['ev'])
+            has = any(e['type'] == 'call' and any(t in ('C19.enter', 'C19c.enter') for t, v in e['recs']) for e in sc['ev'])
             hooks = hooks or has
             if not has: continue
             if sc['kind'] == 8: n, u, mm, ps = replay_cpodes(sc, drv)
@@ -366,6 +383,7 @@ def run(ctx):
     # known findings: replay the refutation witnesses on the implementation
     witness_711(ctx, tools[1])
     witness_window(ctx, tools[1])
+    witness_cpodes(ctx, tools[1])
     ctx.assumptions += [
         'takeOneStep and CPodes::step are oracles; the theorems assume the contract oracle_ok / cp_ok at each use (the replay evaluates the contract on every recorded outcome)',
         'times are modelled in Q: doubles and +Infinity embed order-preservingly, only min and comparisons are applied to them',
